@@ -27,7 +27,7 @@ def _spec(module):
         return [{
             'units': {'cJSON.c': 'core_min.c', 'cJSON_Utils.c': 'utils_bad.c'},
             'rules': [tab.tab8, tab.tab9, tab.tab10, tab.tab11, tab.tab12, lst.lst1, out.out5, out.out6, out.out7,
-                      utilsx.tab18, utilsx.ord1, tab.tab20, utilsx.mrg, utilsx.esc1],
+                      utilsx.tab18, utilsx.ord1, tab.tab20, utilsx.mrg, utilsx.esc1, utilsx.pfx1],
         }]
     if module == 'parse':
         from . import bnd, bnd3, parse, tab
@@ -68,7 +68,7 @@ def _spec(module):
         from . import outbuf, outsym
         return [{
             'units': {'cJSON.c': 'print_bad.c', 'cJSON_Utils.c': 'utils_min.c'},
-            'rules': [outbuf.out1, outbuf.out4, outbuf.tab2_print, outbuf.tab5bc, outbuf.tab15, outbuf.tab16, outsym.out23],
+            'rules': [outbuf.out1, outbuf.out4, outbuf.out8, outbuf.tab2_print, outbuf.tab5bc, outbuf.tab15, outbuf.tab16, outsym.out23],
         }]
     raise AnalysisBroken('no fixture spec for module %s' % module)
 
